@@ -90,7 +90,7 @@ theorem C03_encoded_is_canonical2 (ds : List Desc2) (trig : Option Bytes) (hok :
 
 /-! ### non-vacuity: the example of `Props/C02Nested2.lean` as a decoded value tree -/
 
-instance (e : Ent2) (a : Nat) : Decidable (e.claims a) := by unfold Ent2.claims Ent.claims; infer_instance
+instance Ent2.decClaims (e : Ent2) (a : Nat) : Decidable (e.claims a) := by unfold Ent2.claims Ent.claims; infer_instance
 
 /-- with the constant present; the echo stays a MATCHING-REQUEST-PARAM (no value supplied) -/
 def exRe2 : List Desc2 := [.const (bU8 "sid") (.int 0x62) true, .matching "echo" none 1 2 b2Trig, b2Hdr, b2St, b2Tail]
